@@ -306,7 +306,30 @@ def run_case(spec):
                 p_before = np.array(dm.points, copy=True)
                 idx_before = None if probes_m is None else list(dm.probe_point_indices)
                 mv = np.array([0.8 * ext_m, -0.45 * ext_m])
+                # a copy taken BEFORE the move (mesh included) is another device: moving the original in place, entering its
+                # translation(), or moving the copy in place never drags the other one along (mesh sites, edge centres, outline)
+                twin = dm.copy()
+
+                def _snap(d_):
+                    return (np.array(d_.points, copy=True), np.array(d_.mesh.edge_mesh.centers, copy=True), np.array(d_.mesh.dual_sites, copy=True),
+                            np.array(d_.film.points, copy=True), None if d_.probe_points is None else np.array(d_.probe_points, copy=True))
+
+                def _same(x_, y_):
+                    return all((u is None and v is None) or (u is not None and v is not None and u.shape == v.shape and np.array_equal(u, v)) for u, v in zip(x_, y_))
+
+                twin_before = _snap(twin)
+                cnt("copy_vs_inplace_move_checks")
                 dm.translate(mv[0], mv[1], inplace=True)
+                if not _same(_snap(twin), twin_before):
+                    viol("inplace_move_drags_the_copy", {"moved": "original", "max_site_shift_of_copy": float(np.max(np.abs(np.asarray(twin.points) - twin_before[0])))})
+                    twin_before = _snap(twin)
+                dm_now = _snap(dm)
+                with twin.translation(0.21 * ext_m, 0.4 * ext_m):
+                    if not _same(_snap(dm), dm_now):
+                        viol("inplace_move_drags_the_copy", {"moved": "copy, inside translation()", "max_site_shift_of_original": float(np.max(np.abs(np.asarray(dm.points) - dm_now[0])))})
+                twin.translate(-0.6 * ext_m, 0.3 * ext_m, inplace=True)
+                if not _same(_snap(dm), dm_now):
+                    viol("inplace_move_drags_the_copy", {"moved": "copy", "max_site_shift_of_original": float(np.max(np.abs(np.asarray(dm.points) - dm_now[0])))})
                 if np.max(np.abs(np.asarray(dm.points) - (p_before + mv))) > 1e-9 * max(ext_m, np.abs(p_before + mv).max()):
                     viol("mesh_does_not_move_with_device", {"xi": float(layer_m.coherence_length), "max_err": float(np.max(np.abs(np.asarray(dm.points) - (p_before + mv))))})
                 elif probes_m is not None and list(dm.probe_point_indices) != idx_before:
